@@ -608,7 +608,7 @@ pub fn worker(args: &[String]) {
         .stack_size(48 << 20)
         .spawn(move || {
             let sp = Spaces::new(thorough);
-            let mut it = Interp::new().expect("interpreter");
+            let mut it = Interp::must_new();
             let mut evals = 0u64;
             let mut hist: BTreeMap<String, u64> = BTreeMap::new();
             let mut spaces: BTreeMap<String, u64> = BTreeMap::new();
